@@ -24,6 +24,9 @@ type ReqSpec struct {
 	Tag   uint16 `json:"tag"`
 	Async bool   `json:"async,omitempty"`
 	Err   bool   `json:"err,omitempty"`
+	// HoldDestroy (held set only, kinds clunk/remove): the request is answered by the
+	// implementation at once but its fid's FidDestroy blocks until released
+	HoldDestroy bool `json:"holddestroy,omitempty"`
 }
 
 type Case struct {
@@ -137,7 +140,7 @@ func run(c *Case) error {
 		it := &item{spec: rs, msg: m, held: held}
 		cm := ref9p.Canon(m, c.Dotu)
 		it.key = script.Key(cm)
-		b := script.Behav{Hold: held, Async: rs.Async}
+		b := script.Behav{Hold: held && !rs.HoldDestroy, HoldDestroy: held && rs.HoldDestroy, Async: rs.Async}
 		if rs.Err {
 			b.Err, b.Ecode = "scripted failure", 5
 		}
@@ -407,7 +410,11 @@ func genCase(t *rapid.T) *Case {
 	}
 	for i := 0; i < nb; i++ {
 		conn := rapid.IntRange(0, c.NConn-1).Draw(t, "conn")
-		c.Held = append(c.Held, ReqSpec{Conn: conn, Kind: rapid.SampledFrom(fk).Draw(t, "kind"), Tag: tag(conn)})
+		h := ReqSpec{Conn: conn, Kind: rapid.SampledFrom(fk).Draw(t, "kind"), Tag: tag(conn)}
+		if (h.Kind == "clunk" || h.Kind == "remove") && rapid.Bool().Draw(t, "holddestroy") {
+			h.HoldDestroy = true
+		}
+		c.Held = append(c.Held, h)
 	}
 	c.Release = rapid.Permutation(seq(nb)).Draw(t, "release")
 	// independent requests
